@@ -15,12 +15,13 @@ ROOT = os.path.dirname(os.path.dirname(os.path.abspath(__file__)))
 PROPS = [f'C{i:02d}' for i in range(1, 21)]
 ENV = dict(os.environ, GOFLAGS='-mod=mod', GOPROXY='off', GOSUMDB='off', GOTOOLCHAIN='local', CGO_ENABLED='0', GOMEMLIMIT='2GiB')
 MC = '/tmp/mc'
+ENV['GOCACHE'] = MC + '/gocache'   # not the user's cache: every mutant adds objects to it (135 GB after 12 000 mutants); removed at the end (≈ 11 MB per mutant)
 SKIP_FILES = ('_string.go', 'backend/client.go', 'sensitivity/', 'doc.go')
 
 
-def sh(cmd, cwd=None, timeout=600, inp=None):
+def sh(cmd, cwd=None, timeout=600, inp=None, env=None):
     try:
-        p = subprocess.run(cmd, cwd=cwd, env=ENV, capture_output=True, text=True, timeout=timeout, input=inp, shell=isinstance(cmd, str))
+        p = subprocess.run(cmd, cwd=cwd, env=env or ENV, capture_output=True, text=True, timeout=timeout, input=inp, shell=isinstance(cmd, str))
         return p.returncode, p.stdout + p.stderr
     except subprocess.TimeoutExpired:
         return 124, 'TIMEOUT'
@@ -156,6 +157,7 @@ def main():
     with multiprocessing.Pool(nw) as pool:
         results = pool.map(worker, chunks)
     recs = [r for rs in results for r in rs]
+    shutil.rmtree(MC + '/gocache', ignore_errors=True)
     with open(outp, 'w') as f:
         for r in recs:
             f.write(json.dumps(r) + '\n')
